@@ -450,7 +450,8 @@ pub fn cfg() -> GenCfg {
 
 fn check_program(case: &SemCase, st: &mut Stats, ex: &Excl) -> Result<(), String> {
     st.count("long_body_programs");
-    if crate::excl::find_excluded(&case.prog, ex).is_some() {
+    if let Some(r) = crate::excl::find_excluded(&case.prog, ex) {
+        st.count(&format!("excluded:{}", r));
         return Ok(());
     }
     let src = case.source();
@@ -468,6 +469,10 @@ fn check_program(case: &SemCase, st: &mut Stats, ex: &Excl) -> Result<(), String
                 st.count("long_body_with_repairs");
                 st.nontrivial(pbt::hash_str(&src));
             }
+            Ok(())
+        }
+        sem::Built::Rejected(e) => {
+            st.count(&format!("long_body_rejected:{}", e.msg().chars().take(40).collect::<String>()));
             Ok(())
         }
         _ => Ok(()),
